@@ -68,6 +68,9 @@ def main():
                                 viol.append({"prop": "C13", "what": "provider asked again for %s %d by solve #%d on the same solver" % (
                                     "candidates of package" if c[0] == 0 else "dependencies of solvable", c[1], pi + 1)})
                             all_calls.append(c)
+                    if pi == 0 and u.get("snapshot"):
+                        tags.add("C16")
+                        viol += cert.check_snapshot(u, p, res, o.get("snapshot"), st)
                     if prop in tags:
                         relevant.add((fam, u["id"]))
                     for v in viol:
